@@ -4,6 +4,7 @@ CONSTANTS
   MaxHops = 4
   MaxReq = 1
   LimitMax = 3
+  MaxDiscards = 2
   MaxScript = 3
   Deviations = {}
 INVARIANTS TypeOK RequestIDNonEmpty TrustAndTruncate MetadataCarriesRequestID KeepsInboundTrace ParentIsCallerSpan FreshSpan OneTracePerChain UntracedIsClean Sampling0And100Exact AdaptiveWarmup ForwardMatchesContext CaptureMatchesWritten LogCarriesRequestID
